@@ -1,6 +1,7 @@
 """proto_lib — helpers of the C20 check (gogenproto): building the real CLI, the recording
 stub and the harness from the scratch copy; running harness modes; in-kernel judgement;
 delta-debugging of a failing case through the harness' spec mode."""
+import concurrent.futures
 import copy
 import json
 import os
@@ -16,27 +17,36 @@ CLI_PKG = "github.com/drshriveer/gtools/gogenproto/cmd/gogenproto"
 
 
 def build_tools(ctx):
-    """harness + stub + the real gogenproto CLI, all compiled against the scratch copy"""
+    """harness + stub + the real gogenproto CLI, all compiled against the scratch copy (the three
+    `go build`s run side by side)"""
     h = ctx.harness_module()
-    binp, log = ctx.build_harness("c20")
-    if not binp:
-        return None, "harness c20:\n" + log
-    stub, log = ctx.build_harness("c20stub")
-    if not stub:
-        return None, "stub c20stub:\n" + log
     cli = os.path.join(ctx.scratch, "bin", "gogenproto")
-    rc, log = vlib.sh(["go", "build", "-trimpath", "-o", cli, CLI_PKG], cwd=h, env=vlib.go_env(),
-                      timeout=900)
-    if rc != 0:
-        return None, "gogenproto CLI of the current tree does not build:\n" + log
+    os.makedirs(os.path.dirname(cli), exist_ok=True)
+
+    def build_cli():
+        rc, log = vlib.sh(["go", "build", "-trimpath", "-o", cli, CLI_PKG], cwd=h, env=vlib.go_env(),
+                          timeout=900)
+        return (cli if rc == 0 else None), log
+
+    with concurrent.futures.ThreadPoolExecutor(max_workers=3) as ex:
+        f1 = ex.submit(ctx.build_harness, "c20")
+        f2 = ex.submit(ctx.build_harness, "c20stub")
+        f3 = ex.submit(build_cli)
+        (binp, log1), (stub, log2), (clip, log3) = f1.result(), f2.result(), f3.result()
+    if not binp:
+        return None, "harness c20:\n" + log1
+    if not stub:
+        return None, "stub c20stub:\n" + log2
+    if not clip:
+        return None, "gogenproto CLI of the current tree does not build:\n" + log3
     work = os.path.join(ctx.scratch, "c20work")
     os.makedirs(work, exist_ok=True)
     return {"harness": binp, "stub": stub, "cli": cli, "work": work}, ""
 
 
-def run_harness(ctx, tools, tag, args, timeout=3000):
+def run_harness(ctx, tools, tag, args, timeout=30000, seed=None):
     prefix = os.path.join(ctx.scratch, "cases_%s" % tag)
-    cmd = [tools["harness"], "-seed", str(ctx.seed), "-out", prefix, "-cli", tools["cli"],
+    cmd = [tools["harness"], "-seed", str(ctx.seed if seed is None else seed), "-out", prefix, "-cli", tools["cli"],
            "-stub", tools["stub"], "-work", tools["work"]] + [str(a) for a in args]
     rc, out = vlib.sh(cmd, env=vlib.go_env(), timeout=timeout)
     if rc != 0:
@@ -165,4 +175,6 @@ def view(j):
     if j.get("stderr"):
         v["stderr"] = j["stderr"]
     v["oracle"] = j.get("oracle")
+    if j.get("oracle_package_name_from_path"):
+        v["oracle_package_name_from_path"] = j["oracle_package_name_from_path"]
     return v
